@@ -418,20 +418,28 @@ func (r *vRun) decodeCase(kind int, m *vMsg, b []byte, what string, unmarshal fu
 		return
 	}
 	if err != nil {
-		r.out.Case(false, term0)
+		r.caseOut(false, term0)
 		r.hist["decode_rejected_"+what]++
 		return
 	}
 	t := r.s.tree(m, v)
 	term := vCaseTerm(kind, m.id, "VSome ("+t.String()+")", b, 0)
-	r.out.Case(len(b) > 0, term)
+	// observations for the clause checker: hx2 = Marshal(decoded), back = what one more round gives
+	var b1, b2 []byte
+	b1Obs, round2 := false, "VRep []"
+	defer func() {
+		if b1Obs {
+			r.caseOut(len(b) > 0, vCaseTermO(kind, m.id, "VSome ("+t.String()+")", b, 0, "JNull", round2, b1, false))
+		} else {
+			r.caseOut(len(b) > 0, term)
+		}
+	}()
 	r.hist["decode_accepted_"+what]++
 	// fixed point, on the implementation alone
 	pb, ok := v.Addr().Interface().(vPB)
 	if !ok {
 		return
 	}
-	var b1, b2 []byte
 	var e1, e2, e3 error
 	var sz int
 	if !vGuard(r.out, "re-encode("+what+")", term, func() {
@@ -452,6 +460,17 @@ func (r *vRun) decodeCase(kind int, m *vMsg, b []byte, what string, unmarshal fu
 		}
 	}) {
 		return
+	}
+	if e1 == nil {
+		b1Obs = true
+		switch {
+		case e2 != nil || e3 != nil:
+			round2 = "VRep []"
+		case bytes.Equal(b1, b2):
+			round2 = "VNone"
+		default:
+			round2 = "VB " + vHex(b2)
+		}
 	}
 	switch {
 	case e1 != nil:
@@ -516,9 +535,9 @@ func (r *vRun) byteCases(pool [][2]interface{}) {
 					return reflect.ValueOf(x).Elem(), nil
 				}
 			}
-			// kind 1 = the path that (as the code stands) does not migrate, kind 2 = the one that does: which
-			// is which is decided by the MODEL (Model.path_migrates), the harness only says which API it called
-			r.decodeCase(1, m, b, sg.name+"-ProtoUnmarshaler", wrap(sg.unmarshalPB), wrap(sg.unmarshalPB))
+			// kind 9 = ProtoUnmarshaler, kind 2 = ExportRequest.UnmarshalProto (kind 1 is the generated Unmarshal):
+			// whether a path migrates is decided by the MODEL (Model.path_migrates), the harness only says which API it called
+			r.decodeCase(9, m, b, sg.name+"-ProtoUnmarshaler", wrap(sg.unmarshalPB), wrap(sg.unmarshalPB))
 			r.decodeCase(2, m, b, sg.name+"-ExportRequest.UnmarshalProto", wrap(sg.reqUnmarshalPB), wrap(sg.reqUnmarshalPB))
 			r.decodePaths(sg, m, b)
 		}
@@ -632,26 +651,19 @@ func (r *vRun) decodePaths(sg *vSignal, m *vMsg, b []byte) {
 		r.out.Oracle("migrate", vCaseTerm(2, m.id, "VSome ("+tx.String()+")", b, 0), fmt.Sprintf("%s: %d deprecated scope field(s) still set after ExportRequest.UnmarshalProto (otlp.Migrate must move them to scope_* and clear them)", sg.name, n))
 	}
 	if n := r.s.deprecatedLeft(m, ty); n > 0 {
-		r.hist["pb_unmarshaler_left_deprecated"]++
-		r.out.Oracle("migrate", vCaseTerm(1, m.id, "VSome ("+ty.String()+")", b, 0), fmt.Sprintf("known:proto-unmarshaler-does-not-migrate %s: %d deprecated scope field(s) still set after ProtoUnmarshaler.Unmarshal (pb.go never calls otlp.Migrate: the scopes of a legacy payload are invisible through the pdata API)", sg.name, n))
+		r.out.Oracle("migrate", vCaseTerm(9, m.id, "VSome ("+ty.String()+")", b, 0), fmt.Sprintf("%s: %d deprecated scope field(s) still set after ProtoUnmarshaler.Unmarshal (otlp.Migrate must move them to scope_* and clear them: every OTLP unmarshaler MUST call it)", sg.name, n))
 	}
 	if tx.String() != ty.String() {
-		tm := ty.clone()
-		r.s.migrateTree(m, tm)
-		js := ""
-		if j, err := sg.marshalJSON(y); err == nil {
-			if z, err := sg.unmarshalJSON(j); err == nil {
-				p1, _ := sg.marshalPB(y)
-				p2, _ := sg.marshalPB(z)
-				if !bytes.Equal(p1, p2) {
-					js = fmt.Sprintf("; the payload does not survive JSON either: Marshal(UnmarshalJSON(MarshalJSON(x))) has %d bytes, Marshal(x) %d", len(p2), len(p1))
-				}
+		r.out.Oracle("decode-paths", vCaseTerm(9, m.id, "VSome ("+ty.String()+")", b, 0), fmt.Sprintf("%s: ProtoUnmarshaler and ExportRequest.UnmarshalProto decode the same bytes to different payloads: %s", sg.name, vDiff(tx, ty)))
+	}
+	// the decoded payload must survive JSON like any other payload (JSON -> protobuf agreement)
+	if j, err := sg.marshalJSON(y); err == nil {
+		if z, err := sg.unmarshalJSON(j); err == nil {
+			p1, _ := sg.marshalPB(y)
+			p2, _ := sg.marshalPB(z)
+			if !bytes.Equal(p1, p2) && r.s.deprecatedLeft(m, ty) > 0 {
+				r.out.Oracle("decode-paths", vCaseTerm(9, m.id, "VSome ("+ty.String()+")", b, 0), fmt.Sprintf("%s: the payload ProtoUnmarshaler built from these bytes does not survive JSON: Marshal(UnmarshalJSON(MarshalJSON(x))) has %d bytes, Marshal(x) %d", sg.name, len(p2), len(p1)))
 			}
-		}
-		if tm.String() == tx.String() {
-			r.out.Oracle("decode-paths", vCaseTerm(1, m.id, "VSome ("+ty.String()+")", b, 0), fmt.Sprintf("known:proto-unmarshaler-does-not-migrate %s: ProtoUnmarshaler and ExportRequest.UnmarshalProto decode the same bytes to different payloads; they agree once otlp.Migrate is applied to the former%s", sg.name, js))
-		} else {
-			r.out.Oracle("decode-paths", vCaseTerm(1, m.id, "VSome ("+ty.String()+")", b, 0), fmt.Sprintf("%s: ProtoUnmarshaler and ExportRequest.UnmarshalProto decode the same bytes to different payloads, and not because of the migration: %s", sg.name, vDiff(tx, ty)))
 		}
 	}
 }
